@@ -57,6 +57,7 @@ type (
 	TimeV struct {
 		Kind int   // 0 zero, 1 nanos (v = unix nanoseconds), 2 secs (v = unix seconds)
 		V    *Term // BV64
+		Z    *Term // optional (Kind != zero): when it holds, the value is the zero time after all
 	}
 
 	// OpaqueV is a library object that is only passed around or handled by intrinsics.
